@@ -1,5 +1,5 @@
 (* Lemmas for C12: every breach class of Spec/Mutations.v is rejected by the reference semantics Spec/Valid.v. *)
-From VRP Require Import Base.Tac Model.Core Spec.Feasible Spec.Valid Proofs.ValidP Spec.Mutations.
+From VRP Require Import Base.Tac Model.Core Spec.Feasible Spec.Valid Proofs.ValidP Spec.Relations Proofs.RelationsP Spec.Mutations.
 
 Lemma valid_b_nil P S :
   valid_b P S = [] <-> precond_viol P = [] /\ accounted_b P S = [] /\ feasible_viols P S = [] /\ replay_viol P S = []
@@ -593,6 +593,43 @@ Proof.
   specialize (H1 _ Hin). subst g. cbn [set_loc sa_loc set_acts ss_loc] in H1. apply Z.eqb_eq in H1. contradiction.
 Qed.
 
+(* ------------------------------------------------------------------ broken relation: a pinned job leaves its tour *)
+Lemma mut_rel_tour_invalid rels P S k s k2 r t t2 st x :
+  In r rels -> k <> k2 -> nth_error (sl_tours S) k = Some t -> nth_error (sl_tours S) k2 = Some t2 ->
+  is_rel_tour r t = true -> nth_error (to_stops t) s = Some st -> In x (ss_acts st) ->
+  is_mid_kind (sa_kind x) = true -> In (sa_job x) (rel_ids r) ->
+  valid_r rels P (mutS (MRelTour k s k2) S) <> [].
+Proof.
+  intros Hr Hne Hk Hk2 Hrel Hs Hx Hmid Hj HV.
+  unfold valid_r in HV. apply app_nil_iff in HV. destruct HV as [HVb HVr].
+  assert (Hst : stop_at S k s = Some st) by (unfold stop_at, tour_at; rewrite Hk; exact Hs).
+  cbn [mutS] in HVb, HVr. rewrite Hst in HVb, HVr.
+  set (g1 := set_stops (del_nth s)) in *. set (g2 := set_stops (ins_nth 1 st)) in *.
+  set (S' := set_tours (fun l => upd_nth k2 g2 (upd_nth k g1 l)) S) in *.
+  assert (Hk2' : nth_error (sl_tours S') k2 = Some (g2 t2)).
+  { cbn [S' set_tours sl_tours]. apply nth_error_upd_nth_eq. rewrite nth_error_upd_nth_neq by exact Hne. exact Hk2. }
+  assert (Hk' : nth_error (sl_tours S') k = Some (g1 t)).
+  { cbn [S' set_tours sl_tours]. rewrite nth_error_upd_nth_neq by (intros E; apply Hne; symmetry; exact E).
+    apply nth_error_upd_nth_eq. exact Hk. }
+  (* the moved activity is served by tour k2 of the breached document *)
+  assert (Hin : In (sa_job x) (mid_ids (g2 t2))).
+  { destruct (In_nth_error _ _ (In_ins_nth st (to_stops t2) 1)) as [i Hi].
+    destruct (flat_tour_In (g2 t2) i st x Hi Hx) as [f [Hf [Hfj Hfk]]].
+    unfold mid_ids. apply in_map_iff. exists f. split; [exact Hfj|]. apply filter_In. split; [exact Hf|].
+    rewrite Hfk. exact Hmid. }
+  pose proof (proj1 (rel_viols_nil rels S') HVr r Hr) as HP. destruct HP as [[HV1 _] _].
+  destruct (HV1 (g2 t2) (sa_job x) (nth_error_In _ _ Hk2') Hj Hin) as [Hv2 Hs2].
+  apply is_rel_tour_iff in Hrel. destruct Hrel as [Hv1 Hs1].
+  (* so tours k and k2 are driven by the same vehicle shift: not accounted *)
+  apply valid_b_nil in HVb. destruct HVb as (_ & HA & _). apply accounted_b_nil in HA.
+  pose proof (acc_shift_once _ _ HA) as Hnd.
+  assert (E : nth_error (map shift_key (sl_tours S')) k = nth_error (map shift_key (sl_tours S')) k2).
+  { rewrite (map_nth_error shift_key _ _ Hk'), (map_nth_error shift_key _ _ Hk2'). unfold shift_key.
+    cbn [g1 g2 set_stops to_vehicle to_shift] in *. congruence. }
+  rewrite NoDup_nth_error in Hnd. apply Hne. apply Hnd; [|exact E].
+  rewrite map_length. apply nth_error_Some. rewrite Hk'. discriminate.
+Qed.
+
 (* ------------------------------------------------------------------ all proved classes at once *)
 Lemma some_b_true {A} (o : option A) f : some_b o f = true -> exists x, o = Some x /\ f x = true.
 Proof. destruct o as [x|]; cbn [some_b]; [intros H; exists x; auto|discriminate]. Qed.
@@ -602,7 +639,7 @@ Proof. intros H. apply negb_true_iff in H. apply Z.eqb_neq in H. exact H. Qed.
 Lemma breach_is_invalid_partial m P S :
   valid_b P S = [] -> applicable_b m P S = true ->
   match m with MCapacity _ _ | MArrival _ _ _ | MDupAct _ _ | MDropStop _ _ | MMoveStop _ _ _
-               | MBreakDup _ _ _ | MBreakDrop _ _ _ => True
+               | MBreakDup _ _ _ | MBreakDrop _ _ _ | MRelTour _ _ _ | MRelShift _ _ _ => True
           | _ => valid_b (mutP m P S) (mutS m S) <> [] end.
 Proof.
   intros HV Happ. destruct m; cbn [applicable_b] in Happ; cbv beta iota; try exact I; cbn [mutP].
